@@ -196,6 +196,33 @@ def rule_bump(rep, crate, cfg):
                 continue
             if fn.edge_dominates((g['bb'], g['t']), bi):
                 ok = True
+        # idiom 2: checked_add(n).filter(|&end| self.source.is_boundary(end)) and the store on the Some edge of the filter
+        filters = []
+        for b, t in sl.call_terms:
+            if not re.search(r'Option::<T>::filter$', fn.callee_name(t)):
+                continue
+            a0 = fn.slice(t['args'][0])
+            if not ({bb for bb, _t in chk} & {bb for bb, tt in a0.call_terms if re.search(r'::checked_add$', fn.callee_name(tt))}):
+                continue
+            m = re.match(r'agg:closure:(.*?\{closure#\d+\})\{', desc(fn, t['args'][1]))
+            cf = crate.fns.get(m.group(1)) if m else None
+            if cf is None:
+                continue
+            ibs = [tt for _b, tt in cf.calls() if re.search(r'is_boundary$', cf.callee_name(tt))]
+            if len(ibs) != 1 or not ret_desc(cf).startswith('call:') or 'is_boundary' not in ret_desc(cf) or any(cf.blocks[bb]['term']['t'] == 'switch' for bb in cf.live_blocks()):
+                continue
+            argsl = cf.slice(ibs[0]['args'][1])
+            recv = cf.slice(ibs[0]['args'][0])
+            # the receiver is self.source, read directly or captured by the closure (env field k <- outer operand k)
+            recv_ok = 'source' in recv.field_names()
+            if not recv_ok and 1 in recv.params:
+                ag = trace(fn, t['args'][1])
+                if ag[0] == 'agg':
+                    recv_ok = any('source' in fn.slice(o, through_calls=False).field_names() for o in ag[2]['rhs']['ops'])
+            if 2 in argsl.params and not (argsl.binops & ARITH_BINOPS) and not argsl.calls and recv_ok:
+                filters.append((b, t))
+        if filters:
+            ok = True
         if not ok:
             rep.viol(rid, 'bump:unguarded-store:%s' % fld,
                      'store to self.%s is not dominated by the true edge of self.source.is_boundary(<stored value>)' % fld, where)
@@ -206,12 +233,12 @@ def rule_bump(rep, crate, cfg):
                          'a panic is reachable after the store to self.%s: a caught panic leaves the lexer corrupted' % fld, where)
                 break
         # the payload of checked_add may only be used on its Some edge
-        other_calls = [c for c in sl.calls if not re.search(r'::checked_add$|^core::option::Option::<T>::(unwrap|expect)$|^std::option::Option::<T>::(unwrap|expect)$', c)]
+        other_calls = [c for c in sl.calls if not re.search(r'::checked_add$|^core::option::Option::<T>::(unwrap|expect)$|^std::option::Option::<T>::(unwrap|expect)$', c) and not (filters and re.search(r'Option::<T>::filter$', c))]
         if other_calls:
             rep.viol(rid, 'bump:unrecognised-idiom:%s' % fld,
                      'value stored to self.%s flows through %s; only checked_add (+ unwrap/expect or a Some pattern) is an audited idiom' % (fld, sorted(other_calls)), where)
         if not sl.calls_matching(r'Option::<T>::(unwrap|expect)$'):
-            for b, t in chk:
+            for b, t in (filters or chk):
                 some_ok = False
                 for sb in switches(fn):
                     term = fn.blocks[sb]['term']
